@@ -377,8 +377,14 @@ func (m *ldMachine) genOp(rt *rapid.T, i int) ldOp {
 		}
 	}
 	k := rapid.SampledFrom(kinds).Draw(rt, lbl("kind"))
-	if cfg.Liq != nil && len(c.App.NewaucKeeper.GetAuctions(c.Ctx)) > 0 && rapid.IntRange(0, 4).Draw(rt, lbl("limitnow")) == 0 {
-		k = "lbdep"
+	if cfg.Liq != nil && len(c.App.NewaucKeeper.GetAuctions(c.Ctx)) > 0 {
+		// while auctions run, bring them to an end often: by automatic limit bids and by market bids
+		switch rapid.IntRange(0, 5).Draw(rt, lbl("limitnow")) {
+		case 0:
+			k = "lbdep"
+		case 1:
+			k = "bid"
+		}
 	}
 	op := ldOp{K: k}
 	switch k {
